@@ -178,7 +178,7 @@ def run(ctx: Ctx) -> None:
 
     commit_rules(ctx, top, "C04.R1")
     # ---- R2 -------------------------------------------------------------------------------
-    load = prog.funcs.get("dds._api.load")
+    load = prog.func("dds._api.load")
     if load is None:
         raise AnchorError("dds._api.load not found")
     lfl = flow_of(prog, load)
@@ -228,7 +228,7 @@ def run(ctx: Ctx) -> None:
     rep.rule("C04.R6", "as C17.R4/R5: every codec reads back what it wrote (binary mode, same encoding, dual operations): the value a committed path "
                        "serves equals the value keep returned")
     codec_duals(ctx, "C04.R6", "C04.R6")
-    mem = prog.classes.get("dds.store.MemoryStore")
+    mem = prog.cls("dds.store.MemoryStore")
     if mem is not None and "sync_paths" in mem.methods and "fetch_paths" in mem.methods:
         w = _dict_attr(mem.methods["sync_paths"], store=True)
         r = _dict_attr(mem.methods["fetch_paths"], store=False)
@@ -257,7 +257,7 @@ def run(ctx: Ctx) -> None:
                 rep.bad("C04.R3", sp.qname, desc, sp.loc(loop), ["an iteration that records nothing:"] + witness_path(scfg, sp, pth)[-8:] + [
                         "a path that was committed before keeps its old key: after a re-keep with changed code, keep returns the new value and load the old one"],
                         "mem-skip", what="MemoryStore.sync_paths does not update a path that is already known")
-    c = prog.classes.get("dds.codecs.databricks.DBFSStore")
+    c = prog.cls("dds.codecs.databricks.DBFSStore")
     if c is not None:
         m = StoreModel(prog, c, ctx._types)
         puts = {e.term for e in m.effects_of("sync_paths") if e.kind == "PUT" and mentions_sym(e.term, "PATH")}
